@@ -11,8 +11,8 @@ from gen import c05_linearization as tr_lin
 from gen import c06_testlin as tr_tl
 
 ID = "C06"
-PROPS_FILES = ["Gama/Props/C06.lean", "Gama/Props/C06Assembled.lean", "Gama/Props/C06Refine.lean"]
-LEAN_TARGETS = ["Gama.Props.C06", "Gama.Props.C06Assembled", "Gama.Props.C06Refine"]
+PROPS_FILES = ["Gama/Props/C06.lean", "Gama/Props/C06Assembled.lean", "Gama/Props/C06Refine.lean", "Gama/Props/C06Network.lean"]
+LEAN_TARGETS = ["Gama.Props.C06", "Gama.Props.C06Assembled", "Gama.Props.C06Refine", "Gama.Props.C06Network"]
 DRIVERS = ["drv_cogo"]
 RULE = ("(a3) the whole of Acord2::execute (the real do-while, all strategy objects of the constructor) on in-memory networks "
         "of 2..4 given points and 2..6 construction stages, each tying a new point or a missing height to points that are "
@@ -93,7 +93,19 @@ LEVEL_TEXT = ("partial: Lean 4 theorems over R about executable models of the ap
               "ApproximateCoordinates::solve_insertion (finding C06-F21: it publishes wrong points from exact data), "
               "monotonicity of AcordIntersection under added observations and the completeness of the whole; these are covered by "
               "the streams / the end-to-end search on gama-local only. The scheduling model (Gama/Model/Acord2.lean) is executed "
-              "by drv_cogo (op acord2) next to the real Acord2::execute.")
+              "by drv_cogo (op acord2) next to the real Acord2::execute. "
+              "Round 7: (i) the fixed point through the EXECUTED models of project_equations() and of the solver facade "
+              "(C06_exact_network_solution_zero: exact observations => solve() = 0, residuals() = 0, [pvv] = 0 for envelope / "
+              "cholesky / gso under C01's one rank-gap hypothesis; weights = m0^2 Sigma^-1 of the clusters, positive definiteness "
+              "derived from the accepted prepareProjectEquations()); (ii) refine_obsdh_reductions(IS, adjusted) in both modes and the "
+              "three-test loop of refine_adjustment() (281bcf7, a2adf726) with the reduction formulas, tolerances, store / ask decisions "
+              "and the list of tests REGENERATED from the source: the non-adjusted call stores the reductions of the current "
+              "coordinates whatever was stored; exact instrument-to-target values + stored reductions are exact mark-to-mark values; at "
+              "the true coordinates no test asks and the loop returns with 0 iterations; whenever the loop is left by break every "
+              "stored reduction is within 1 um / 0.1 cc of the reduction at the adjusted coordinates (the proof needs the third test "
+              "of a2adf726 to be the last of the regenerated list); (iii) what the modelled Acord2 leaves with nothing missing is the "
+              "true configuration (Acord feeds the fixed point), and a geometric 2x2 regular instance (two distances to fixed points). "
+              "The adjustment and refine_approx_coordinates enter the loop model as parameters.")
 LEVEL_NOTE = ("Theorems are about exact real arithmetic; libm and rounding are not modelled. The end-to-end statement "
               "(adjusted = true, zero residuals, nothing removed, for every algorithm) is explored, not proved; "
               "tolerances used by the oracle: 1e-6 m when exact approximate coordinates are supplied, 1e-5 m otherwise "
@@ -110,7 +122,9 @@ TRUSTED = ["harness/c06_cogo.cpp re-declares access (#define private public) for
            "tools/gen/c06_nets.py (true coordinates -> exact observations) and the regex reader of the result XML",
            "expat (the `net` stream parses generated .gkf files through GKFparser)",
            "tools/gen/c06_testlin.py (test_linearization_visitor.cpp/.h -> Gama/Gen/TestLinVisitor.lean; tokenizer and "
-           "expression parser are C05's translator's)"]
+           "expression parser are C05's translator's); round 7: the same translator writes Gama/Gen/RefineObsdh.lean from "
+           "refine_obsdh_reductions (arithmetic translated, skeleton matched textually) and LocalNetwork::refine_adjustment "
+           "(network.cpp / network.h, matched textually, tests emitted as data)"]
 MODELLED = ["libm sin/cos/atan2/acos/sqrt (Float primitives of the Lean runtime vs glibc)",
             "std::sort (insertion sort in the model)", "std::map / std::multimap iteration order inside Acord2",
             "AcordPolar::execute, AcordTraverse, AcordWeakChecks, ApproximateCoordinates::solve_insertion (not modelled; "
@@ -135,6 +149,12 @@ ASSUMPTIONS = ["bearing and direction values lie in [0, 2pi) (one pass of the un
                "Model/TestLinearization.lean: the loop, the maximum and the threshold of TestLinearization() are hand-written (the "
                "translator checks the shape of the C++ loop text); the special case for a Coordinates cluster has no counterpart "
                "(the visits of X, Y, Z give 0 as well)",
+               "Model/RefineAdjustment.lean: the loop over IS->OD, the dynamic_cast dispatch and the loop of refine_adjustment are "
+               "hand-written over the regenerated branches / list of tests; the adjustment (project_equations + solver) and "
+               "refine_approx_coordinates are parameters of the loop model (RA.Env); `if (changed) IS->update_residuals()` is "
+               "represented by the adjustment being a function of the current state (caching: C04)",
+               "C06_exact_network_solution_zero: no revised observation names one point in two roles (NoAlias, as C01); the joint "
+               "non-vacuity instance over R is the empty network (the evaluated PE o netSolve witness is over Q)",
                "C06I.ExactCl: two directions (azimuths) observed at one point go to targets >= 1e-6 apart and not in one direction",
                "intersection stream: point ids of an observation are distinct; the static small-angle limit starts at 0.15"]
 
@@ -423,7 +443,8 @@ def obsdh_stream(ctx, corr, exe, drv, n, wd):
     Model/RefineAdjustment.lean over the regenerated Gen/RefineObsdh.lean, at four places of a run; oracle on the
     implementation: a refine_adjustment() that stopped before its bound leaves every stored reduction within the
     tolerance of the reduction at the adjusted coordinates (theorem C06_refine_adjustment_reductions_within_tolerance)"""
-    rng = ctx.rng
+    import random
+    rng = random.Random(f"C06-obsdh-{ctx.seed}")      # its own generator: the draws of the other streams are unchanged
     cases, files, maxit = [], [], []
     corpus = ctx.verif / "corpus" / "C06"
     for f in sorted(corpus.glob("*dh*.gkf")) if corpus.exists() else []:
